@@ -151,16 +151,13 @@ func regC04(add addFn, p pFn) {
 		add(&Instance{Property: "C04", Name: "gss-mic-n" + itoa(n), Entry: "gssapi.VH_C17_MICUnmarshal", Params: p("n", n), Bound: "every MIC token of n bytes"})
 	}
 	add(&Instance{Property: "C04", Name: "realm-lines-2x2", Entry: "config.VH_C04_RealmLines", Params: p("lines", 2, "len", 2), Reach: []string{"returned"}, Bound: "2 lines of 0..2 characters over { } = a space"})
-	add(&Instance{Property: "C04", Name: "realm-lines-3x3", Entry: "config.VH_C04_RealmLines", Params: p("lines", 3, "len", 3), Tier: "thorough", TimeoutS: 1500, Reach: []string{"returned"}, Bound: "3 lines of 0..3 characters"})
+	// (realm-lines-3x3 exceeded 200 000 paths without finishing: not registered; 2x2 is the bound that runs clean)
 	// TCP reply framing: the peer announces an arbitrary 32-bit length
 	add(&Instance{Property: "C04", Name: "sendtcp-length", Entry: "client.VH_C04_SendTCP", Params: p("tcphdr", 1, "maxseq", 0, "maxstr", 0), Stubs: []string{"netstub", "asn1havoc", "randstub"}, Logic: "QF_UFBV", Replay: "stubbed", MaxConc: 1200,
 		Bound: "one KDC over TCP announcing EVERY 32-bit reply length and sending 2 bytes"})
 	// PAC
-	for _, n := range []int{8, 24, 40} {
+	for _, n := range []int{8, 24} { // (n=40 exceeded 200 000 paths without finishing: not registered)
 		tier := "quick"
-		if n == 40 {
-			tier = "thorough"
-		}
 		add(&Instance{Property: "C04", Name: "pac-n" + itoa(n), Entry: "pac.VH_C04_PACUnmarshal", Params: p("n", n, "maxseq", 0, "maxstr", 0), Stubs: []string{"ndrhavoc", "nfolduf", "des3rtkuf"}, Logic: "QF_UFBV", Replay: "stubbed", Tier: tier, Reach: []string{"returned"}, TimeoutS: 1200,
 			Bound: "every PAC of exactly n bytes (allocation decided for every buffer count, processing for <= 2 buffers)"})
 	}
@@ -338,14 +335,14 @@ func regC08(add addFn, p pFn) {
 	}
 	rtkMerge := []string{"github.com/jcmturner/gokrb5/v8/crypto/rfc3961.stretch56Bits", "github.com/jcmturner/gokrb5/v8/crypto/rfc3961.calcEvenParity"}
 	add(&Instance{Property: "C08", Name: "des3-group", Entry: "crypto/rfc3961.VH_C08_DES3Group", Merge: rtkMerge, Reach: []string{"done"}, Bound: "ALL 2^56 seeds of one DES key group (parity expansion, 16 weak/semi-weak corrections)"})
-	add(&Instance{Property: "C08", Name: "des3-random-to-key", Entry: "crypto/rfc3961.VH_C08_DES3RandomToKey", Merge: rtkMerge, Tier: "thorough", Reach: []string{"done"}, TimeoutS: 1500, Bound: "ALL 2^168 seeds"})
+	add(&Instance{Property: "C08", Name: "des3-random-to-key", Entry: "crypto/rfc3961.VH_C08_DES3RandomToKey", Merge: rtkMerge, Tier: "thorough", Reach: []string{"done"}, TimeoutS: 6000, SolverMs: 600000, Bound: "ALL 2^168 seeds"})
 	for _, mn := range [][2]int{{5, 64}, {5, 128}, {8, 64}, {8, 128}, {1, 64}, {16, 128}, {3, 168}, {13, 128}, {9, 168}} {
 		add(&Instance{Property: "C08", Name: "nfold-m" + itoa(mn[0]) + "-n" + itoa(mn[1]), Entry: "crypto/rfc3961.VH_C08_NfoldStructure", Params: p("mlen", mn[0], "nbits", mn[1]), Stubs: []string{"ocadduf"}, Logic: "QF_UFBV", Reach: []string{"done"},
 			Bound: "every input of mlen bytes folded to nbits (5 bytes = key usage constants, 8 = 'kerberos'); addition summarised by one symbol on both sides (its equality with end-around-carry addition is ones-add-*)"})
 	}
 	for mlen := 1; mlen <= 64; mlen++ {
 		for _, nb := range []int{64, 128, 168} {
-			add(&Instance{Property: "C08", Name: "nfold-all-m" + itoa(mlen) + "-n" + itoa(nb), Entry: "crypto/rfc3961.VH_C08_NfoldStructure", Params: p("mlen", mlen, "nbits", nb), Stubs: []string{"ocadduf"}, Logic: "QF_UFBV", Tier: "thorough", Reach: []string{"done"},
+			add(&Instance{Property: "C08", Name: "nfold-all-m" + itoa(mlen) + "-n" + itoa(nb), Entry: "crypto/rfc3961.VH_C08_NfoldStructure", Params: p("mlen", mlen, "nbits", nb), Stubs: []string{"ocadduf"}, Logic: "QF_UFBV", Tier: "thorough", Unwind: 20000, Reach: []string{"done"},
 				Bound: "every input of mlen bytes (all lengths 1..64) folded to every output size the library uses"})
 		}
 	}
